@@ -355,7 +355,6 @@ func (e *Eng) havocFieldsExceptTag(st *State, v Val, key string) {
 		e.havocPointee(st, v)
 		return
 	}
-	st.tainted = true
 	for i := 0; i < u.NumFields(); i++ {
 		f := u.Field(i)
 		if reflectTagGet(u.Tag(i), key) == "-" || !f.Exported() {
@@ -411,4 +410,118 @@ func (u *Universe) closureUnit(pkgPath, key string) *FuncInfo {
 	sig, _ := parent.Pkg.TypesInfo.TypeOf(lit).(*types.Signature)
 	return &FuncInfo{Key: key, Pkg: parent.Pkg, Obj: parent.Obj, Sig: sig,
 		Decl: &ast.FuncDecl{Name: ast.NewIdent(varName), Type: lit.Type, Body: lit.Body}}
+}
+
+func (u *Universe) isRepoPkg(path string) bool {
+	return path == garblePath || strings.HasPrefix(path, garblePath+"/")
+}
+
+// privateUntil computes, for every owned slice variable, the source position
+// before which its backing array cannot have been stored anywhere or handed
+// to a callee: the earliest escaping use, widened to the start of the
+// outermost loop or function literal that contains that use.
+func (e *Eng) privateUntil(body *ast.BlockStmt) map[types.Object]token.Pos {
+	out := map[types.Object]token.Pos{}
+	for o := range e.owned {
+		out[o] = body.End()
+	}
+	hasGoto := false
+	var stack []ast.Node
+	benign := map[*ast.Ident]bool{}
+	ast.Inspect(body, func(n ast.Node) bool {
+		switch x := n.(type) {
+		case *ast.BranchStmt:
+			if x.Tok == token.GOTO {
+				hasGoto = true
+			}
+		case *ast.AssignStmt:
+			for _, l := range x.Lhs {
+				if id, ok := ast.Unparen(l).(*ast.Ident); ok {
+					benign[id] = true
+				}
+			}
+			if len(x.Lhs) == len(x.Rhs) {
+				for i, r := range x.Rhs {
+					if c, ok := ast.Unparen(r).(*ast.CallExpr); ok && len(c.Args) > 0 {
+						if f, ok := ast.Unparen(c.Fun).(*ast.Ident); ok {
+							if b, ok := e.info.Uses[f].(*types.Builtin); ok && b.Name() == "append" {
+								a0, ok0 := ast.Unparen(c.Args[0]).(*ast.Ident)
+								l0, ok1 := ast.Unparen(x.Lhs[i]).(*ast.Ident)
+								if ok0 && ok1 && e.info.ObjectOf(a0) == e.info.ObjectOf(l0) {
+									benign[a0] = true
+								}
+							}
+						}
+					}
+				}
+			}
+		case *ast.CallExpr:
+			if f, ok := ast.Unparen(x.Fun).(*ast.Ident); ok {
+				if b, ok := e.info.Uses[f].(*types.Builtin); ok && (b.Name() == "len" || b.Name() == "cap") && len(x.Args) == 1 {
+					if id, ok := ast.Unparen(x.Args[0]).(*ast.Ident); ok {
+						benign[id] = true
+					}
+				}
+			}
+		case *ast.IndexExpr:
+			if id, ok := ast.Unparen(x.X).(*ast.Ident); ok {
+				benign[id] = true
+			}
+		case *ast.RangeStmt:
+			if id, ok := ast.Unparen(x.X).(*ast.Ident); ok {
+				benign[id] = true
+			}
+		}
+		return true
+	})
+	var walk func(n ast.Node) bool
+	walk = func(n ast.Node) bool {
+		if n == nil {
+			stack = stack[:len(stack)-1]
+			return true
+		}
+		stack = append(stack, n)
+		if id, ok := n.(*ast.Ident); ok && !benign[id] {
+			if o := e.info.Uses[id]; o != nil && e.owned[o] {
+				p := id.Pos()
+				for _, anc := range stack {
+					switch anc.(type) {
+					case *ast.ForStmt, *ast.RangeStmt, *ast.FuncLit:
+						if anc.Pos() < p {
+							p = anc.Pos()
+						}
+					}
+				}
+				if p < out[o] {
+					out[o] = p
+				}
+			}
+		}
+		return true
+	}
+	ast.Inspect(body, walk)
+	if hasGoto {
+		for o := range out {
+			out[o] = body.Pos()
+		}
+	}
+	return out
+}
+
+// privFacts: a reference read from memory is not the backing array of a
+// slice this function still holds privately.
+func (e *Eng) privFacts(st *State, ref string) {
+	if isLiteralTerm(ref) || strings.Contains(ref, "q.") || e.curPos == token.NoPos {
+		return
+	}
+	for o, until := range e.privUntil {
+		if e.curPos >= until {
+			continue
+		}
+		cur, ok := st.vars[o]
+		if !ok || cur.K != KSlice || cur.Ref == ref {
+			continue
+		}
+		e.assumeOnce(st, "(or (= "+ref+" 0) (not (= "+ref+" "+cur.Ref+")))")
+	}
 }
